@@ -1,11 +1,25 @@
 import HapVerif.Model.Store
+import HapVerif.Proofs.EntityMap
 
-/-! # C20 - saved pairings survive interrupted saves (crash-point theorem)
+/-! # C20 - saved pairings and the accessory cache survive restart and interrupted saves
 
-The accessory-database round trip and "a truncated cache loads as empty" are established on the
-implementation by the harness (every fixture, random entity maps, every prefix of cache files);
-they are about dictionary plumbing and the JSON parsers, which are not modelled - that part of
-C20 is not a theorem.  What is proved is the crash-point quantifier. -/
+Two parts.
+
+* **Crash points of `save_data`** (`Model/Store.lean`): for every crash point the pairing file holds the old or
+  the complete new bytes.
+* **The accessory database round trip** (`Model/EntityMap.lean`): `Accessories.serialize()` followed by
+  `Accessories.from_list()` - what the characteristic cache stores and what a restart reads back - is the
+  identity on every accessory object in *normal form*; everything `create_from_dict` builds from a clean
+  dictionary is in normal form and `set_value` keeps it, so every state reachable from a loaded database by
+  value updates is read back unchanged: all attributes of every characteristic (type, ids, permissions,
+  format, value, range, step, valid values, handle, event flags), the services' types, ids and links.  The
+  file-backed cache is write-through: after any history of updates and deletions a restart sees the same
+  entries (config number, state number, broadcast key, accessories), and an absent or unparsable file is a
+  cold cache.
+
+What stays outside the theorems: the JSON text layer (`hkjson` = orjson/commentjson: `loads (dumps v) = v`,
+strict prefixes of a document do not parse) and CPython dictionaries - exercised differentially by the harness
+on every fixture, on random databases and on every prefix of cache files. -/
 
 namespace HapVerif.C20
 open HapVerif.Store
@@ -60,5 +74,178 @@ theorem C20_load_after_crash {D} (load : File → D) (old : File) (new : Bytes) 
   rcases C20_save_crash_safe old new done cutAt with h | h
   · left; rw [h]
   · right; rw [h]
+
+
+/-! ## The accessory database round trip -/
+
+open HapVerif.EntityMap
+
+/-- **A characteristic is read back unchanged** (every attribute), for every metadata table and every
+    normaliser, whenever the object is in normal form. -/
+theorem C20_char_roundtrip (norm : String → String) (tbl : Table) (c : EntityMap.Char) (h : NF norm tbl c) :
+    loadChar norm tbl (serChar c) = .ok c :=
+  loadChar_serChar norm tbl c h
+
+/-- **Restart after restart**: whatever `create_from_dict` builds from a clean characteristic dictionary is
+    serialised to a dictionary that loads to the very same object. -/
+theorem C20_char_restart (norm : String → String) (tbl : Table) (hn : ∀ s, norm (norm s) = norm s)
+    (d : CharD) (c : EntityMap.Char) (hc : Clean d) (h : loadChar norm tbl d = .ok c) (hb : BoolPlain c) :
+    loadChar norm tbl (serChar c) = .ok c :=
+  loadChar_serChar norm tbl c (loadChar_NF norm tbl hn d c hc h hb)
+
+/-- value updates (events, polls, writes echoed to the model) on a readable characteristic -/
+def applyValues (c : EntityMap.Char) (vs : List J) : EntityMap.Char := vs.foldl setValue c
+
+/-- **Every reachable state round-trips**: after any number of `set_value` calls with real values on a readable
+    characteristic that was loaded from a clean dictionary, serialise + load returns the current object -
+    in particular the latest value. -/
+theorem C20_char_reachable_roundtrip (norm : String → String) (tbl : Table) (c : EntityMap.Char) (vs : List J)
+    (h : NF norm tbl c) (hp : c.perms.contains "pr" = true) (hv : ∀ v ∈ vs, v ≠ .null) :
+    loadChar norm tbl (serChar (applyValues c vs)) = .ok (applyValues c vs) := by
+  apply loadChar_serChar
+  unfold applyValues
+  induction vs generalizing c with
+  | nil => exact h
+  | cons v vs ih =>
+    exact ih (setValue c v) (setValue_NF norm tbl c v h hp (hv v (by simp))) hp (fun x hx => hv x (by simp [hx]))
+
+/-- the value read back after a restart is the last one stored (bool characteristics store `bool(v)`) -/
+theorem C20_last_value_survives (norm : String → String) (tbl : Table) (c : EntityMap.Char) (vs : List J) (v : J)
+    (h : NF norm tbl c) (hp : c.perms.contains "pr" = true) (hv : ∀ x ∈ vs ++ [v], x ≠ .null) :
+    (loadChar norm tbl (serChar (applyValues c (vs ++ [v])))).map (·.value) = .ok (coerce c.format v) := by
+  rw [C20_char_reachable_roundtrip norm tbl c (vs ++ [v]) h hp hv]
+  have hf : ∀ (c : EntityMap.Char) (l : List J), (applyValues c l).format = c.format := by
+    intro c l
+    unfold applyValues
+    induction l generalizing c with
+    | nil => rfl
+    | cons x l ih => exact (ih (setValue c x)).trans rfl
+  simp only [Except.map, applyValues, List.foldl_append, List.foldl_cons, List.foldl_nil, setValue]
+  congr 1
+  exact congrArg (fun f => coerce f v) (hf c vs)
+
+/-- **A whole accessory is read back unchanged**: services in declaration order with their types, instance ids,
+    characteristics and links. -/
+theorem C20_accessory_roundtrip (norm : String → String) (tbl : Table) (a : Accessory) (h : NFA norm tbl a) :
+    loadAccessory norm tbl (serAccessory a) = .ok a :=
+  loadAccessory_ser norm tbl a h
+
+/-- a list of accessories (`Accessories.serialize` / `from_list`) -/
+theorem C20_accessories_roundtrip (norm : String → String) (tbl : Table) (as : List Accessory)
+    (h : ∀ a ∈ as, NFA norm tbl a) :
+    (as.map serAccessory).mapM (loadAccessory norm tbl) = .ok as := by
+  induction as with
+  | nil => rfl
+  | cons a as ih =>
+    simp only [List.map_cons, List.mapM_cons, loadAccessory_ser norm tbl a (h a (by simp)),
+      ih (fun x hx => h x (by simp [hx])), bind, Except.bind, pure, Except.pure]
+
+/-! ### The hypotheses are met (non-vacuity) and each excluded point really behaves differently -/
+
+def tbl0 : Table := fun ty =>
+  if ty = "BRIGHTNESS" then some { format := some (.str "int"), description := some (.str "Brightness"), unit := some (.str "percentage"), minValue := some (.num 0), maxValue := some (.num 100), minStep := some (.num 1) }
+  else none
+
+def d0 : CharD := { type := "brightness", iid := 9, perms := ["pr", "pw", "ev"], format := some (.str "int"), value := some (.num 40), minValue := some (.num 10) }
+
+def c0 : EntityMap.Char := { type := "BRIGHTNESS", iid := 9, perms := ["pr", "pw", "ev"], format := .str "int", value := .num 40, ev := .null, description := .str "Brightness", unit := .str "percentage", minValue := .num 10, maxValue := .num 100, minStep := .num 1, maxLen := .num 64, validValues := .null, handle := .null, disconnectedEvents := .null, broadcastEvents := .null }
+
+example : loadChar String.toUpper tbl0 d0 = .ok c0 := by decide +kernel
+example : loadChar String.toUpper tbl0 (serChar c0) = .ok c0 := by decide +kernel
+
+def dEmptyDesc : CharD := { d0 with description := some (.str "") }
+def dWriteOnly : CharD := { d0 with perms := ["pw"] }
+def dNullValue : CharD := { d0 with value := some .null }
+def cNullValue : EntityMap.Char := { c0 with value := .null }
+
+/-- the excluded point `"description": ""` on a type whose table carries a description: the empty string is not
+    serialised and the table's text comes back (replayed on the real code by the harness; `description` is not
+    among the attributes the property lists) -/
+theorem C20_excluded_empty_description :
+    (loadChar String.toUpper tbl0 dEmptyDesc).map (·.description) = .ok (.str "") ∧
+    ((loadChar String.toUpper tbl0 dEmptyDesc).bind
+      (fun c => loadChar String.toUpper tbl0 (serChar c))).map (·.description) = .ok (.str "Brightness") := by
+  decide +kernel
+
+/-- the excluded point: a value on a characteristic without the read permission is kept by `create_from_dict`
+    but never serialised -/
+theorem C20_excluded_value_without_read :
+    (loadChar String.toUpper tbl0 dWriteOnly).map (·.value) = .ok (.num 40) ∧
+    ((loadChar String.toUpper tbl0 dWriteOnly).bind
+      (fun c => loadChar String.toUpper tbl0 (serChar c))).map (·.value) = .ok .null := by
+  decide +kernel
+
+/-- the excluded point: a readable characteristic whose value is `null` comes back with the constructor's
+    default for its format and range -/
+theorem C20_excluded_null_value :
+    ((loadChar String.toUpper tbl0 dNullValue).bind
+      (fun c => pure (setValue c .null))).map (·.value) = .ok .null ∧
+    (loadChar String.toUpper tbl0 (serChar cNullValue)).map (·.value) = .ok (.num 10) := by
+  decide +kernel
+
+/-! ## The write-through characteristic cache -/
+
+/-- **A restart of the file-backed cache sees exactly the entries in memory**, after any history of
+    `async_create_or_update_map` / `async_delete_map` (at least one, so that the file exists). -/
+theorem C20_cache_write_through {A} (c : FileCache A) (ops : List (CacheOp A)) (h : ops ≠ []) :
+    (ops.foldl FileCache.step c).restart.mem = (ops.foldl FileCache.step c).mem := by
+  have : ∀ (c : FileCache A) (ops : List (CacheOp A)), ops ≠ [] →
+      (ops.foldl FileCache.step c).file = some (ops.foldl FileCache.step c).mem := by
+    intro c ops
+    induction ops generalizing c with
+    | nil => intro h; exact absurd rfl h
+    | cons op ops ih =>
+      intro _
+      cases ops with
+      | nil => rfl
+      | cons op2 rest => exact ih (c.step op) (by simp)
+  simp [FileCache.restart, this c ops h]
+
+/-- the write-through invariant `file = mem` is kept by every further operation and by restarts -/
+theorem C20_cache_invariant {A} (c : FileCache A) (h : c.file = some c.mem) (op : CacheOp A) :
+    (c.step op).file = some (c.step op).mem ∧ c.restart.mem = c.mem := by
+  simp [FileCache.step, FileCache.restart, h]
+
+/-- an absent, truncated or unparsable cache file is a cold cache - start-up does not fail -/
+theorem C20_cache_corrupt_is_empty {A} (mem : CacheMap A) :
+    (FileCache.restart ⟨mem, none⟩).mem = [] := rfl
+
+/-- the entry stored last for an id is the one found - config number, state number, broadcast key and the
+    accessory database as given - and a deleted id is gone; other ids are not disturbed -/
+theorem C20_cache_get_put {A} (m : CacheMap A) (k : String) (e : Entry A) :
+    CacheMap.get (applyOp m (.put k e)) k = some e := by
+  simp [applyOp, CacheMap.get]
+
+theorem C20_cache_get_del {A} (m : CacheMap A) (k : String) :
+    CacheMap.get (applyOp m (.del k)) k = none := by
+  simp [applyOp, CacheMap.get, List.find?_eq_none]
+
+theorem C20_cache_get_other {A} (m : CacheMap A) (k k' : String) (op : CacheOp A) (hk : k' ≠ k)
+    (hop : op = .del k ∨ ∃ e, op = .put k e) :
+    CacheMap.get (applyOp m op) k' = CacheMap.get m k' := by
+  have hf : ∀ (l : CacheMap A), (l.filter (·.1 != k)).find? (·.1 == k') = l.find? (·.1 == k') := by
+    intro l
+    induction l with
+    | nil => rfl
+    | cons x l ih =>
+      by_cases hx : x.1 = k
+      · have h1 : (x.1 != k) = false := by simp [hx]
+        have h2 : (x.1 == k') = false := by simp [hx, Ne.symm hk]
+        rw [List.filter_cons_of_neg (p := fun y : String × Entry A => y.1 != k) (by simp [h1]),
+          List.find?_cons_of_neg (p := fun y : String × Entry A => y.1 == k') (by simp [h2]), ih]
+      · have h1 : (x.1 != k) = true := by simp [hx]
+        rw [List.filter_cons_of_pos (p := fun y : String × Entry A => y.1 != k) h1]
+        by_cases hx' : x.1 = k'
+        · have h2 : (x.1 == k') = true := by simp [hx']
+          rw [List.find?_cons_of_pos (p := fun y : String × Entry A => y.1 == k') h2,
+            List.find?_cons_of_pos (p := fun y : String × Entry A => y.1 == k') h2]
+        · have h2 : ¬ (x.1 == k') = true := by simp [hx']
+          rw [List.find?_cons_of_neg (p := fun y : String × Entry A => y.1 == k') h2,
+            List.find?_cons_of_neg (p := fun y : String × Entry A => y.1 == k') h2, ih]
+  rcases hop with rfl | ⟨e, rfl⟩
+  · simp only [applyOp, CacheMap.get, hf]
+  · have h2 : ¬ ((k, e).1 == k') = true := by simp [Ne.symm hk]
+    simp only [applyOp, CacheMap.get]
+    rw [List.find?_cons_of_neg (p := fun y : String × Entry A => y.1 == k') h2, hf]
 
 end HapVerif.C20
